@@ -19,6 +19,8 @@ CLAIMED["C06"]=("only dogfood EndBlock returns updates and only under the epoch-
   "structured-dominance facts and comparator classification over type-checked AST; store effect summaries for who-may-write; cache-context typestate", "4/C06")
 CLAIMED["C07"]=("who-may-write the five key families; the three lookup indexes written and deleted together; store-a-key dominated by 'not removing' and 'key not in use' for the stored consensus address; previous key recorded once; reverse lookup deleted only by the pruning loop and the never-active arms; pruning schedule pairing; slash/jail via the reverse lookup; revision-less chain id arguments",
   "store effect summaries (who-may-write, direct-access sets per function) + structured-dominance facts over type-checked AST", "4/C07")
+CLAIMED["C11"]=("on the unrecovered paths (Begin/EndBlock, wired epoch hooks, SDK staking-interface callbacks): every explicit panic / Must* / unchecked type assertion is of an accepted class; no dereference after a logged or discarded error; every division has a provably non-zero divisor; parse results are checked",
+  "call-graph reachability from unrecovered roots + structured-dominance facts (nil-after-error, division guards) over type-checked AST", "4/C11")
 NA={}
 def main():
     checks=[]
